@@ -33,6 +33,15 @@ CHECKS["C15"] = ("proof",
     "Trusted: struct pack/unpack inverse and ranges, io.BytesIO sequential semantics, int.to_bytes/from_bytes inverse. In the "
     "script_hash+timelock template signature is 1..75 bytes and pubkey 33 bytes. Tokenizer over arbitrary input not decided.",
     "symbolic execution of the real AST (structural byte segments), VCs discharged by z3/cvc5", "3 C15")
+CHECKS["C05"] = ("proof",
+    "Serialisation of a transaction equals a spec function written from the Bitcoin encoding; parsing recovers every field; "
+    "re-serialisation is byte-identical; txid = reversed double SHA-256 of the serialisation without witness data (legacy and segwit "
+    "form); cached id/hash stay consistent across mutators; compact size and string primitives canonical and inverse for every value. "
+    "Postconditions of the real functions for arbitrary element content; element counts unrolled 1..2 (count prefix proved for all "
+    "counts). 365 run-time contract cases (bounded, not counted as proved).",
+    "Trusted: struct pack/unpack, io.BytesIO, sha256 as an uninterpreted function, hexlify/reversal laws. Not decided: counts above 2 "
+    "in one proof, independent implementation replaced by the spec function, garbage input.",
+    "symbolic execution of the real AST (structural byte segments) against a wire-format spec function, VCs by z3/cvc5", "3 C05")
 NOT_YET = {}
 
 def main():
